@@ -233,6 +233,9 @@ func toAnswer(res []models.SearchResult, err error) Answer {
 		it := Item{ID: PIDIndex(r.Id), Dist: r.Distance, Score: r.Score, Hybrid: r.HybridScore}
 		if d, e := resultDoc(r); e == nil {
 			it.Doc = d
+		} else if a.Err == "" {
+			// a result whose document cannot be decoded is not an answer
+			return Answer{Err: fmt.Sprintf("undecodable document returned for point %d: %v", it.ID, e)}
 		}
 		if r.Distance != nil || r.Score != nil {
 			a.Ranked = true
